@@ -186,7 +186,11 @@ func (aq *Ackqueue) Acked() []AckMsg {
 	aq.mu.Lock()
 	defer aq.mu.Unlock()
 
-	aq.ackdone = aq.ackdone[0:0]
+	// The caller works through the returned list after the lock has been
+	// released, and a session may be used by two connections at a time (the
+	// server does not close an older connection with the same client ID): the
+	// list handed out must not be written to again.
+	aq.ackdone = nil
 
 	for len(aq.pings) > 0 && aq.pings[0].State == message.PINGRESP {
 		aq.ackdone = append(aq.ackdone, aq.pings[0])
